@@ -6,8 +6,8 @@
 EXTENDS Template
 CONSTANTS Encodings          \* subset of {<<32, TRUE>>, <<32, FALSE>>, <<64, TRUE>>, <<64, FALSE>>} given as 1..4
 
-FullAns == [k \in 1..4 |-> [i \in 1..Len(QsF[k]) |-> QExp(F(FullF[k]), EbF[k], QsF[k][i])]]
-FullOpen == [k \in 1..4 |-> OpenExp(F(FullF[k]), "Any")]
+FullAns == [k \in 1..12 |-> [i \in 1..Len(QsF[k]) |-> QExp(F(FullF[k]), EbF[k], QsF[k][i])]]
+FullOpen == [k \in 1..12 |-> OpenExp(F(FullF[k]), "Any")]
 
 \* three stages so that the workers share the prefixes: encoding, block of 8 prefix lengths, prefix length
 VARIABLE c
